@@ -34,12 +34,47 @@ impl Wake for CountingWaker {
         note_which(Arc::as_ptr(&self));
         SEEN_AT_WAKE.store(Arc::strong_count(&self), SeqCst);
         self.wakes.fetch_add(1, SeqCst);
+        hold_here();
     }
     fn wake_by_ref(self: &Arc<Self>) {
         note_which(Arc::as_ptr(self));
         SEEN_AT_WAKE.store(Arc::strong_count(self), SeqCst);
         self.wakes.fetch_add(1, SeqCst);
+        hold_here();
     }
+}
+
+thread_local! {
+    /// set by FWakeBegin just before it calls wake(): the caller's wake function then does not return until FWakeEnd,
+    /// executing this thread's commands meanwhile (Waker!FWakeBegin .. FWakeEnd)
+    static HOLD: std::cell::Cell<bool> = std::cell::Cell::new(false);
+    static MY_CHAN: std::cell::Cell<usize> = std::cell::Cell::new(0);
+}
+static CURRENT: Mutex<Option<Arc<Shared>>> = Mutex::new(None);
+
+/// Inside the caller's wake function (whichever of the two the bridge chose to call).
+fn hold_here() {
+    if !HOLD.with(|h| h.replace(false)) {
+        return;
+    }
+    // harness bookkeeping (channels, commands) is not the library's memory; the nested operations track their own
+    ledger::untracked(|| {
+        let sh = CURRENT.lock().unwrap().clone().expect("world");
+        let ch = &sh.chans[MY_CHAN.with(|c| c.get())];
+        let _ = ch.tx.lock().unwrap().send(Ok(())); // ack FWakeBegin: the original's wake function is running
+        loop {
+            let cmd = ch.rx.lock().unwrap().recv();
+            let e = match cmd {
+                Ok(Some(e)) => e,
+                _ => break,
+            };
+            if e["op"] == "FWakeEnd" {
+                break; // acked by whoever called wake(), once it has returned
+            }
+            let r = vkit::catch(|| exec_f(&sh, &e)).unwrap_or_else(|m| Err(format!("panic: {}", m)));
+            let _ = ch.tx.lock().unwrap().send(r);
+        }
+    })
 }
 
 type Reply = Result<(), String>;
@@ -51,15 +86,30 @@ struct Chan {
 
 struct Shared {
     table: Mutex<Vec<Option<Waker>>>,
+    /// record (Waker::data()) of a handle that is carrying a by-value wake right now
+    inflight: Mutex<Vec<usize>>,
     recs: Mutex<Vec<usize>>,
     in_poll: AtomicBool,
-    chan1: Chan,
+    /// command / reply channel of every thread; [0] is the polling thread
+    chans: Vec<Chan>,
 }
 
 /// Operations on foreign wakers; executed on whichever thread the spec names.
 fn exec_f(sh: &Shared, e: &Value) -> Reply {
     let op = e["op"].as_str().unwrap();
     let w = e["w"].as_u64().unwrap_or(1) as usize - 1;
+    if op == "FWakeBegin" {
+        // the handle leaves the table; the table is not locked while the original's wake function runs
+        let wk = sh.table.lock().unwrap()[w].take().ok_or("wake of empty slot")?;
+        sh.inflight.lock().unwrap()[w] = wk.data() as usize;
+        HOLD.with(|h| h.set(true));
+        ledger::track(|| wk.wake());
+        sh.inflight.lock().unwrap()[w] = 0;
+        if HOLD.with(|h| h.replace(false)) {
+            return Err("by-value wake returned without waking the original".into());
+        }
+        return Ok(()); // this is the ack of FWakeEnd
+    }
     let mut t = sh.table.lock().unwrap();
     ledger::track(|| match op {
         "FClone" => {
@@ -88,9 +138,9 @@ fn exec_f(sh: &Shared, e: &Value) -> Reply {
 /// The body of every scripted poll: acknowledge entry, then execute commands until PollEnd.
 fn scripted(cx: &mut Context<'_>, sh: &Shared) {
     sh.in_poll.store(true, SeqCst);
-    let _ = sh.chan1.tx.lock().unwrap().send(Ok(())); // ack PollBegin: we are inside the callee
+    let _ = sh.chans[0].tx.lock().unwrap().send(Ok(())); // ack PollBegin: we are inside the callee
     loop {
-        let cmd = sh.chan1.rx.lock().unwrap().recv();
+        let cmd = sh.chans[0].rx.lock().unwrap().recv();
         let e = match cmd {
             Ok(Some(e)) => e,
             _ => break,
@@ -109,7 +159,7 @@ fn scripted(cx: &mut Context<'_>, sh: &Shared) {
             }
             _ => exec_f(sh, &e),
         };
-        let _ = sh.chan1.tx.lock().unwrap().send(r);
+        let _ = sh.chans[0].tx.lock().unwrap().send(r);
     }
     sh.in_poll.store(false, SeqCst);
 }
@@ -170,6 +220,8 @@ pub struct World {
     bases: Vec<usize>,
     workers: Vec<Worker>,
     nfw: usize,
+    /// by-value wakes in progress per thread (slots), innermost last
+    stacks: Vec<Vec<usize>>,
 }
 
 impl World {
@@ -177,14 +229,24 @@ impl World {
         let origs: Vec<Arc<CountingWaker>> = (0..NORIG).map(|_| Arc::new(CountingWaker { wakes: AtomicUsize::new(0) })).collect();
         // extra references: a double release then shows as a *count*, not as a use after free
         let extras: Vec<_> = (0..64 * NORIG).map(|i| origs[i % NORIG].clone()).collect();
-        let (tx1, wrx1) = channel::<Option<Value>>();
-        let (wtx1, rx1) = channel::<Reply>();
+        let mut chans = vec![];
+        let mut ends = vec![];
+        for _ in 0..nthreads.max(1) {
+            let (tx, wrx) = channel::<Option<Value>>();
+            let (wtx, rx) = channel::<Reply>();
+            chans.push(Chan { rx: Mutex::new(wrx), tx: Mutex::new(wtx) });
+            ends.push((tx, rx));
+        }
         let sh = Arc::new(Shared {
             table: Mutex::new((0..nfw).map(|_| None).collect()),
+            inflight: Mutex::new(vec![0; nfw]),
             recs: Mutex::new(vec![]),
             in_poll: AtomicBool::new(false),
-            chan1: Chan { rx: Mutex::new(wrx1), tx: Mutex::new(wtx1) },
+            chans,
         });
+        *CURRENT.lock().unwrap() = Some(sh.clone());
+        let mut ends = ends.into_iter();
+        let (tx1, rx1) = ends.next().unwrap();
         let mut workers = vec![];
         // thread 1: the poller
         {
@@ -197,7 +259,7 @@ impl World {
             };
             let handle = std::thread::spawn(move || {
                 loop {
-                    let cmd = sh2.chan1.rx.lock().unwrap().recv();
+                    let cmd = sh2.chans[0].rx.lock().unwrap().recv();
                     let e = match cmd {
                         Ok(Some(e)) => e,
                         _ => break,
@@ -224,10 +286,10 @@ impl World {
                             }
                         });
                         sh2.in_poll.store(false, SeqCst);
-                        let _ = sh2.chan1.tx.lock().unwrap().send(r.map_err(|m| format!("panic in poll: {}", m)));
+                        let _ = sh2.chans[0].tx.lock().unwrap().send(r.map_err(|m| format!("panic in poll: {}", m)));
                     } else {
                         let r = vkit::catch(|| exec_f(&sh2, &e)).unwrap_or_else(|m| Err(format!("panic: {}", m)));
-                        let _ = sh2.chan1.tx.lock().unwrap().send(r);
+                        let _ = sh2.chans[0].tx.lock().unwrap().send(r);
                     }
                 }
                 drop(obj);
@@ -235,14 +297,19 @@ impl World {
             });
             workers.push(Worker { tx: tx1, rx: rx1, handle: Some(handle) });
         }
-        for _ in 1..nthreads {
-            let (tx, wrx) = channel::<Option<Value>>();
-            let (wtx, rx) = channel::<Reply>();
+        for k in 1..nthreads {
+            let (tx, rx) = ends.next().unwrap();
             let sh2 = sh.clone();
             let handle = std::thread::spawn(move || {
-                while let Ok(Some(e)) = wrx.recv() {
+                MY_CHAN.with(|c| c.set(k));
+                loop {
+                    let cmd = sh2.chans[k].rx.lock().unwrap().recv();
+                    let e = match cmd {
+                        Ok(Some(e)) => e,
+                        _ => break,
+                    };
                     let r = vkit::catch(|| exec_f(&sh2, &e)).unwrap_or_else(|m| Err(format!("panic: {}", m)));
-                    if wtx.send(r).is_err() {
+                    if sh2.chans[k].tx.lock().unwrap().send(r).is_err() {
                         break;
                     }
                 }
@@ -253,7 +320,7 @@ impl World {
         for (i, o) in origs.iter().enumerate() {
             ORIG_ADDR[i].store(Arc::as_ptr(o) as usize, SeqCst);
         }
-        World { sh, origs, _extras: extras, bases, workers, nfw }
+        World { sh, origs, _extras: extras, bases, workers, nfw, stacks: vec![vec![]; nthreads.max(1)] }
     }
 
     pub fn apply(&mut self, e: &Value) -> Reply {
@@ -263,19 +330,34 @@ impl World {
             _ => e["t"].as_u64().unwrap() as usize - 1,
         };
         SEEN_AT_WAKE.store(usize::MAX, SeqCst);
+        match op {
+            "FWakeBegin" => self.stacks[t].push(e["w"].as_u64().unwrap() as usize - 1),
+            "FWakeEnd" => {
+                if self.stacks[t].pop().is_none() {
+                    return Err("FWakeEnd without a wake in progress".into());
+                }
+            }
+            _ => {}
+        }
         self.workers[t].tx.send(Some(e.clone())).unwrap();
-        self.workers[t].rx.recv().unwrap_or_else(|_| Err("worker died".into()))
+        let r = self.workers[t].rx.recv().unwrap_or_else(|_| Err("worker died".into()));
+        if r.is_err() && op == "FWakeBegin" {
+            self.stacks[t].pop(); // wake() returned without holding: nothing is in progress
+        }
+        r
     }
 
     pub fn proj(&self) -> Value {
         let t = self.sh.table.lock().unwrap();
+        let infl = self.sh.inflight.lock().unwrap();
         let mut recs = self.sh.recs.lock().unwrap();
         let fw: Vec<usize> = t
             .iter()
-            .map(|w| match w {
-                None => 0,
-                Some(w) => {
-                    let p = w.data() as usize;
+            .enumerate()
+            .map(|(i, w)| match (w, infl[i]) {
+                (None, 0) => 0,
+                (w, p0) => {
+                    let p = w.as_ref().map(|w| w.data() as usize).unwrap_or(p0);
                     match recs.iter().position(|&x| x == p) {
                         Some(i) => i + 1,
                         None => {
@@ -300,10 +382,19 @@ impl World {
     }
 
     pub fn occupied(&self) -> Vec<bool> {
-        self.sh.table.lock().unwrap().iter().map(|w| w.is_some()).collect()
+        let infl = self.sh.inflight.lock().unwrap();
+        self.sh.table.lock().unwrap().iter().enumerate().map(|(i, w)| w.is_some() || infl[i] != 0).collect()
+    }
+    pub fn in_flight(&self, w: usize) -> bool {
+        self.sh.inflight.lock().unwrap()[w] != 0
     }
 
     pub fn teardown(mut self, base: ledger::Snap) -> Option<String> {
+        for t in 0..self.stacks.len() {
+            while !self.stacks[t].is_empty() {
+                let _ = self.apply(&json!({"op":"FWakeEnd","t":t+1}));
+            }
+        }
         if self.sh.in_poll.load(SeqCst) {
             let _ = self.apply(&json!({"op":"PollEnd"}));
         }
@@ -394,15 +485,24 @@ fn trace(out: &str, seed: u64, events: usize, nfw: usize, nthreads: usize) {
         let mut own = vec![1usize; nfw];
         let mut nrec = 0;
         let mut in_poll = false;
+        let mut stacks: Vec<Vec<usize>> = vec![vec![]; nthreads];
         log.emit(&json!({"op":"reset"}));
         emitted += 1;
         let run = 30 + rng.below(100);
         for _ in 0..run {
             let occ = w.occupied();
             let free: Vec<usize> = (0..nfw).filter(|&i| !occ[i]).collect();
-            let used: Vec<usize> = (0..nfw).filter(|&i| occ[i]).collect();
+            let used: Vec<usize> = (0..nfw).filter(|&i| occ[i] && !w.in_flight(i)).collect();
             let mut cand: Vec<Value> = vec![];
-            if in_poll {
+            // a by-value wake in progress on a thread ends (innermost first); the polling thread does nothing else with
+            // the poll itself while its wake function is running
+            for (t, st) in stacks.iter().enumerate() {
+                if !st.is_empty() {
+                    cand.push(json!({"op":"FWakeEnd","t":t+1}));
+                }
+            }
+            if !stacks[0].is_empty() {
+            } else if in_poll {
                 cand.push(json!({"op":"PollEnd"}));
                 cand.push(json!({"op":"ViewWakeByRef"}));
                 if let Some(&d) = free.first() {
@@ -425,6 +525,9 @@ fn trace(out: &str, seed: u64, events: usize, nfw: usize, nthreads: usize) {
                     json!({"op":"FWake","t":t,"w":s+1}),
                     json!({"op":"FWakeByRef","t":t,"w":s+1}),
                 ];
+                if stacks[t - 1].len() < 2 {
+                    c.push(json!({"op":"FWakeBegin","t":t,"w":s+1}));
+                }
                 if let Some(&d) = free.first() {
                     c.push(json!({"op":"FClone","t":t,"w":s+1,"d":d+1}));
                     c.push(json!({"op":"FClone","t":t,"w":s+1,"d":d+1}));
@@ -448,6 +551,10 @@ fn trace(out: &str, seed: u64, events: usize, nfw: usize, nthreads: usize) {
                 }
                 "FClone" => own[e["d"].as_u64().unwrap() as usize - 1] = e["t"].as_u64().unwrap() as usize,
                 "Give" => own[e["w"].as_u64().unwrap() as usize - 1] = e["u"].as_u64().unwrap() as usize,
+                "FWakeBegin" => stacks[e["t"].as_u64().unwrap() as usize - 1].push(e["w"].as_u64().unwrap() as usize - 1),
+                "FWakeEnd" => {
+                    stacks[e["t"].as_u64().unwrap() as usize - 1].pop();
+                }
                 _ => {}
             }
             let r = w.apply(&e);
@@ -457,6 +564,16 @@ fn trace(out: &str, seed: u64, events: usize, nfw: usize, nthreads: usize) {
             o.insert("ok".into(), json!(r.is_ok()));
             log.emit(&ev);
             emitted += 1;
+        }
+        for t in 0..nthreads {
+            while stacks[t].pop().is_some() {
+                let e = json!({"op":"FWakeEnd","t":t+1});
+                let _ = w.apply(&e);
+                let mut ev = e.clone();
+                ev.as_object_mut().unwrap().insert("proj".into(), w.proj());
+                log.emit(&ev);
+                emitted += 1;
+            }
         }
         if in_poll {
             let e = json!({"op":"PollEnd"});
